@@ -127,6 +127,12 @@ Proof.
   induction p; intros flag iv tb tb' H; cbn [expl] in H; try discriminate;
   try (injection H as <-; first [apply tb_le_refl|apply tb_add_le]);
   try (eapply IHp; exact H);
+  try (unfold obind in H;
+       match type of H with
+       | match expl _ _ _ _ p ?f1 ?i1 ?t1 with _ => _ end = _ =>
+           destruct (expl AR pk w n p f1 i1 t1) as [tb1|] eqn:E1; [|discriminate];
+           eapply tb_le_trans; [eapply IHp; exact E1|eapply IHp; exact H]
+       end; fail);
   try (repeat match type of H with context [if ?c then _ else _] => destruct c end;
        unfold obind in H;
        match type of H with
@@ -154,7 +160,7 @@ Fixpoint explainable (p : formula) : bool :=
   | Var _ | Const _ => true
   | A1 _ f => exact_ok f
   | A2 _ f g | Pred _ f g | Iff f g | Xor f g => exact_ok f && exact_ok g
-  | Not f | Ev f | Alw f | Once f | Hist f | Prev f | SPrev f | Next f | SNext f => explainable f
+  | Not f | Ev f | Alw f | Once f | Hist f | Prev f | SPrev f | Next f | SNext f | Rise f | Fall f => explainable f
   | EvT a b f | AlwT a b f | OnceT a b f | HistT a b f => (a <=? b) && explainable f
   | And f g | Or f g | Implies f g => explainable f && explainable g
   | _ => false
@@ -201,6 +207,15 @@ Proof.
   destruct flag; cbn [negb keeps]; intros H Hs.
   - rewrite pos_neg in Hs. rewrite neg_anti_iff. exact (H Hs).
   - rewrite neg_pos in Hs. rewrite neg_anti_iff. exact (H Hs).
+Qed.
+
+Lemma keeps_vmin flag a a' b b' : keeps flag a a' -> keeps flag b b' -> keeps flag (vmin a b) (vmin a' b').
+Proof.
+  destruct flag; cbn [keeps]; intros Ka Kb Hs.
+  - apply vmin_mono; [apply Ka|apply Kb]; (eapply lt_le_trans; [exact Hs|]); [apply vmin_le_l|apply vmin_le_r].
+  - unfold vmin in Hs |- *. destruct (leb a b) eqn:E.
+    + specialize (Ka Hs). destruct (leb a' b') eqn:E'; [exact Ka|]. apply leb_false in E'. eapply leb_trans; eassumption.
+    + specialize (Kb Hs). destruct (leb a' b') eqn:E'; [eapply leb_trans; eassumption|exact Kb].
 Qed.
 
 Lemma isat_of_pos q j : ltb zero (R q w n j) = true -> isat AR pk w n q j = true.
@@ -263,6 +278,16 @@ Proof.
       * apply K2. eapply le_lt_trans; [apply vmax_ge_r|exact Hn].
   - (* Iff *) apply keeps_eq. apply (expl_exact (Iff p1 p2) Hx flag iv tb tb' H A i Hi).
   - apply keeps_eq. apply (expl_exact (Xor p1 p2) Hx flag iv tb tb' H A i Hi).
+  - (* Rise *) cbn [expl] in H. cbn [rho]. unfold obind in H.
+    destruct (expl AR pk w n p flag iv tb) as [tb1|] eqn:E1; [|discriminate].
+    pose proof (IHp Hx flag iv tb tb1 Hwf E1 (agree_le _ _ (expl_mono _ _ _ _ _ H) A) i Hi) as K1.
+    apply keeps_vmin; [|exact K1]. destruct i as [|i]; [apply keeps_eq; reflexivity|].
+    apply keeps_neg. apply (IHp Hx (negb flag) _ tb1 tb' (e_prev_wf _ _ Hwf) H A i). apply e_prev_in. exact Hi.
+  - (* Fall *) cbn [expl] in H. cbn [rho]. unfold obind in H.
+    destruct (expl AR pk w n p (negb flag) iv tb) as [tb1|] eqn:E1; [|discriminate].
+    pose proof (IHp Hx (negb flag) iv tb tb1 Hwf E1 (agree_le _ _ (expl_mono _ _ _ _ _ H) A) i Hi) as K1.
+    apply keeps_vmin; [|apply keeps_neg; exact K1]. destruct i as [|i]; [apply keeps_eq; reflexivity|].
+    apply (IHp Hx flag _ tb1 tb' (e_prev_wf _ _ Hwf) H A i). apply e_prev_in. exact Hi.
   - (* Prev *) cbn [expl] in H. cbn [rho]. destruct i as [|i]; [apply keeps_eq; reflexivity|].
     apply (IHp Hx flag _ tb tb' (e_prev_wf _ _ Hwf) H A i). apply e_prev_in. exact Hi.
   - cbn [expl] in H. cbn [rho]. destruct i as [|i]; [apply keeps_eq; reflexivity|].
@@ -350,7 +375,12 @@ Proof.
   induction p; intros Hx flag iv tb; cbn [explainable] in Hx; try discriminate; cbn [expl];
   try (apply andb_prop in Hx as [Hx1 Hx2]); try discriminate; auto;
   try (apply IHp; auto; fail);
-  try (destruct flag; apply IHp; auto; fail).
+  try (destruct flag; apply IHp; auto; fail);
+  try (unfold obind;
+       match goal with
+       | |- match expl _ _ _ _ p ?f1 ?i1 ?t1 with _ => _ end <> None =>
+           let E := fresh "E" in destruct (expl AR pk w n p f1 i1 t1) eqn:E; [apply IHp; auto|exfalso; revert E; apply IHp; auto]
+       end; fail).
   all: repeat match goal with |- context [if ?c then _ else _] => destruct c end; unfold obind;
     match goal with
     | |- match expl _ _ _ _ ?q ?f1 ?i1 ?t1 with _ => _ end <> None =>
